@@ -63,10 +63,12 @@ def handle (line : String) : String :=
       match parseDim t s with
       | .error e => showErr e
       | .ok v =>
-        match fmtNum exactOps p v with
-        | .error e => showErr e
-        | .ok text => "OK " ++ encCps text ++ " " ++ encCps v.sign ++ " " ++ encCps v.ip ++ " " ++ showOpt v.fp
-                        ++ " " ++ encCps v.dim
+        -- the text as CPython computes it (binary64) and the text of the exact layer (`=` when equal)
+        match fmtNum f64Ops p v, fmtNum exactOps p v with
+        | .ok text, .ok ex => "OK " ++ encCps text ++ " " ++ encCps v.sign ++ " " ++ encCps v.ip ++ " " ++ showOpt v.fp
+                        ++ " " ++ encCps v.dim ++ " " ++ (if ex = text then "=" else encCps ex)
+        | .error e, _ => showErr e
+        | _, .error e => showErr e
     | _, _, _ => "bad-op"
   | ["den", tv] =>
     match decCps tv with
@@ -87,7 +89,7 @@ def handle (line : String) : String :=
         match funcChannels items with
         | .error e => showCErr e
         | .ok (c, tie) =>
-          match fmtColorFunc exactOps p items with
+          match fmtColorFunc f64Ops p items with
           | .error e => showErr e
           | .ok text => "OK " ++ showRgba c ++ (if tie then " 1 " else " 0 ") ++ encCps text
     | _, _ => "bad-op"
